@@ -88,6 +88,11 @@ var Probes = []Probe{
 		[]string{"DROP TABLE d.newt"}),
 	exact("drop-table:d.tdrop", "DROP TABLE d.tdrop", tbl("DROP", "d", "tdrop"), via("DROP", "d", "tdrop"),
 		[]string{"CREATE TABLE d.tdrop (a INT)"}),
+	// a multi-table DROP needs the privilege on EVERY listed table, whatever their order
+	exact("drop-two-tables:d.tdrop2,d.tdrop", "DROP TABLE d.tdrop2, d.tdrop", and(tbl("DROP", "d", "tdrop2"), tbl("DROP", "d", "tdrop")), via("DROP", "d", "tdrop2"),
+		[]string{"CREATE TABLE IF NOT EXISTS d.tdrop2 (a INT)", "CREATE TABLE IF NOT EXISTS d.tdrop (a INT)"}),
+	exact("drop-two-tables:d.tdrop,d.tdrop2", "DROP TABLE d.tdrop, d.tdrop2", and(tbl("DROP", "d", "tdrop"), tbl("DROP", "d", "tdrop2")), via("DROP", "d", "tdrop"),
+		[]string{"CREATE TABLE IF NOT EXISTS d.tdrop2 (a INT)", "CREATE TABLE IF NOT EXISTS d.tdrop (a INT)"}),
 	// MySQL documents ALTER, CREATE and INSERT for ALTER TABLE but enforces ALTER alone for ADD COLUMN; only the
 	// two ends are judged.
 	{Kind: "alter-add-column:d.t2", SQL: "ALTER TABLE d.t2 ADD COLUMN w INT",
